@@ -15,6 +15,8 @@ From I18n Require Import Lib.Outcome Model.IntExpr Model.PluralForms Model.Encod
 From I18n Require Import Lib.Outcome Model.IntExpr Model.PluralForms Model.Tags Generated.UcdPrintable
   Model.Messages Generated.StringFormats Generated.ControlChars.
 From I18n Require Import Lib.Outcome Model.IntExpr Model.PluralForms Lib.CFmtSyntax Model.FmtC.
+From I18n Require Import Lib.Outcome Model.IntExpr Model.PluralForms Model.Tags Generated.UcdPrintable
+  Model.PoUnescape Model.PoParser Model.PoLexer.
 Extraction Language OCaml.
 Extraction "model.ml"
   IntExpr.parse_string IntExpr.pyeval IntExpr.codomain IntExpr.period
@@ -39,4 +41,6 @@ Extraction "model.ml"
   Messages.check_messages Messages.check_flags Messages.find_unusual Messages.search_marker Messages.xml_trigger
   StringFormats.string_formats ControlChars.control_character_names
   FmtC.fmtc_tokens FmtC.fmtc_parse FmtC.fmtc_glic
+  PoUnescape.unescape PoParser.lex_line PoParser.parse_lines PoParser.py_isspace
+  PoLexer.detect_encoding PoLexer.codecs_open_text PoLexer.load_po PoLexer.pofile
   .
